@@ -393,6 +393,31 @@ func runC20(r *Run) {
 		r.atLeast("request-cookie visitors in the module", n, 1)
 	})
 
+	r.rule("R8", "what the handler sees under a name is exactly the one rewritten cookie: every rewrite of a request cookie in the decrypt loop is preceded, in the same iteration, by DelCookie(name) — SetCookie replaces the first cookie of that name only, a second one sent by the client would stay as sent (E1 ordering)", func() {
+		h := encHandler(r)
+		reads := callsMatching(h, false, nameHasSuffix("fasthttp.RequestHeader).Cookie"))
+		r.need(len(reads) >= 1, "the decrypt loop reads the cookie by name")
+		isDel := func(in ssa.Instruction) bool { return isCallTo(in, nameHasSuffix("fasthttp.RequestHeader).DelCookie")) }
+		n := 0
+		for _, w := range callsMatching(h, false, isReqRewrite) {
+			if strings.Contains(w.Name, "DelCookie") || strings.Contains(w.Name, "DelAllCookies") {
+				continue
+			}
+			n++
+			okAll := true
+			for _, rd := range reads {
+				// from this iteration's read to the rewrite, without passing the read again (the next iteration)
+				_, hit := reach(pointAfter(rd.Instr), func(in ssa.Instruction) bool { return in == w.Instr }, nil, func(in ssa.Instruction) bool { return isDel(in) || in == rd.Instr })
+				if hit != nil {
+					okAll = false
+				}
+			}
+			r.check(okAll, fmt.Sprintf("handler:request-rewrite#%d:all-of-the-name-removed-first", n), r.pos(w.Instr), "DelCookie(name) lies on every path from the read to this rewrite",
+				"a request cookie is rewritten without the cookies of that name having been removed first: with `sid=garbage; sid=role-admin` the first is blanked and the second reaches the handler as the client sent it")
+		}
+		r.atLeast("request-cookie rewrites in the decrypt loop", n, 1)
+	})
+
 	r.rule("R5", "cookie names are compared exactly (E1): isDisabled answers true only behind a string equality with (or slices.Contains over) the given names", func() {
 		f := r.Fn(encPkg, "isDisabled")
 		var key *ssa.Parameter
